@@ -166,8 +166,18 @@ func runCheck(o checkOpts) int {
 		for _, u := range r.Unsup {
 			undecided = append(undecided, shortKey(r.Key)+": outside the supported subset: "+u)
 		}
+		// C10 (no panic): the safety obligations of a function are proved from the postconditions of
+		// the functions it calls, whatever property those postconditions are tagged for; so the
+		// postconditions of every function of the sweep are part of C10's check as well.
+		sweptPost := false
+		if ct := w.specs.Contracts[r.Key]; o.prop == "C10" && ct != nil && reach[r.Key] && len(ct.Safety) == 0 && !ct.Trusted {
+			sweptPost = true
+		}
 		for _, ob := range r.Obls {
-			if o.prop == "" || containsStr(ob.Props, o.prop) {
+			if o.prop == "" || containsStr(ob.Props, o.prop) || (sweptPost && ob.Kind == "post") {
+				if sweptPost && ob.Kind == "post" && !containsStr(ob.Props, o.prop) {
+					ob.Props = append(append([]string{}, ob.Props...), o.prop)
+				}
 				obls = append(obls, ob)
 			}
 		}
